@@ -324,11 +324,12 @@ class Engine(object):
         return st == "sat"
 
     def branch(self, cond):
-        cond = z3.simplify(cond)
-        if z3.is_true(cond):
+        simp = z3.simplify(cond)
+        if z3.is_true(simp):
             return True
-        if z3.is_false(cond):
+        if z3.is_false(simp):
             return False
+        # the condition is recorded as built by the code (not simplified), so that ghost abstraction can match its sub-terms
         i = len(self.decisions)
         if i < len(self.prefix):
             d = self.prefix[i]
